@@ -12,6 +12,7 @@ mod paths;
 mod merkle;
 mod roundtrip;
 mod dedup;
+mod ints;
 mod ff;
 mod alloc_watch;
 
@@ -94,6 +95,7 @@ fn main() {
                     "dedup_ground" => dedup::replay_dedup(&v["input"]),
                     "alloc_ground" => alloc_watch::replay_alloc(&v["input"]),
                     "ff_ground" => ff::replay_ff(&v["input"]),
+                    "ints_ground" => ints::replay_ints(&v["input"]),
                     "bls_cache_ground" => eval::replay_bls(&v["input"]),
                     "tree_hash_precomputed" => eval::replay_precomputed(&v["input"]),
                     _ => (false, "unknown eval replay".to_string()),
